@@ -40,6 +40,10 @@ try:
     assert os.stat("dlnk/../phys.txt").st_size==1 and os.path.isdir("dlnk/..") and os.path.isdir("dlnk")
     # a non-blocking stdout that is full: the raw write returns None and the buffered layer raises BlockingIOError
     import select; assert select.select([], [sys.stdout], [], 1)[1]
+    # the BrokenPipeError idiom of the Python documentation: stdout redirected to the null device
+    dn=os.open(os.devnull, os.O_WRONLY); assert os.write(dn, b"gone")==4; os.close(dn)
+    with open(os.devnull, "w") as f: f.write("x")
+    assert open(os.devnull).read()=="" and "/dev/null" not in fs.snapshot()["files"]
     names=sorted(e.name for e in os.scandir(".")); print(names)
     print(sorted(glob.glob("*.txt")))
     os.truncate("old.txt", 10); assert os.path.getsize("old.txt")==10
